@@ -56,6 +56,8 @@ type roAnalysis struct {
 	// local, when set, replaces the ReadOnly test as the guard (the same call-graph reachability serves other gates); what names it in reports
 	local func(f *ssa.Function, instr ssa.Instruction) bool
 	what  string
+	// okRoot, when set, names API roots that are not entry points for this class of obligation (with the reason)
+	okRoot func(f *ssa.Function) bool
 }
 
 // locallyGuarded: instr is reachable in its function only via ReadOnly==false edges.
@@ -107,6 +109,9 @@ func (ra *roAnalysis) funcGuarded(f *ssa.Function, chain *[]string) bool {
 func (ra *roAnalysis) funcGuardedUncached(f *ssa.Function, chain *[]string) bool {
 	c := ra.c
 	if ra.isRoot(f) {
+		if ra.okRoot != nil && ra.okRoot(f) {
+			return true
+		}
 		*chain = append(*chain, c.fname(f)+" (exported API root)")
 		return false
 	}
@@ -229,6 +234,26 @@ func ruleRO(c *Ctx) []*Ob {
 		ra.writeMsk |= osConst(c, n)
 	}
 	openFileT := c.Named("OpenFile")
+	// writes through an open handle are judged by a second instance of the reachability analysis with two kinds of API
+	// roots that are not entry points "of a ReadOnly store": (1) exported functions that are handed the File by the
+	// application (Segment.Persist(file, ...)): the handle is the application's, not one the store opened; (2) the
+	// explicit mutation request Store.SnapshotRevert: on a ReadOnly store its footer write is refused by the kernel
+	// (O_RDONLY descriptor) and reported as an error - the right outcome for a mutation request; nothing else runs
+	// before it that could touch the directory (DUR-2 orders Sync, WriteAt, Sync)
+	fileT := c.Named("File")
+	rh := &roAnalysis{c: c, fRO: ra.fRO, memo: map[*ssa.Function]int{}, writeMsk: ra.writeMsk}
+	rh.okRoot = func(f *ssa.Function) bool {
+		if c.fname(f) == "(*Store).SnapshotRevert" {
+			return true
+		}
+		ps := f.Signature.Params()
+		for k := 0; k < ps.Len(); k++ {
+			if types.Identical(ps.At(k).Type(), fileT) {
+				return true
+			}
+		}
+		return false
+	}
 	for _, f := range c.Funcs {
 		fn := c.fname(f)
 		if strings.HasSuffix(c.Fset.Position(f.Pos()).Filename, "smat.go") {
@@ -256,6 +281,19 @@ func ruleRO(c *Ctx) []*Ob {
 						construct = "call ioutil." + sf.Name()
 					}
 				}
+			} else if cc.IsInvoke() && (cc.Method.Name() == "Truncate" || cc.Method.Name() == "WriteAt") {
+				// a write through an open handle: with the default opener the kernel refuses it on an O_RDONLY
+				// descriptor - and the operation that tried it fails, which is not "serves exactly the persisted
+				// content" either; with an application-supplied File nothing refuses it
+				construct = "invoke " + typeName(cc.Value.Type()) + "." + cc.Method.Name()
+				g, chain := rh.siteGuarded(f, i)
+				ob := o.add(fn, construct, c.instrPos(i), g, "a write through an open handle is reachable only behind a ReadOnly == false guard (or from a mutation request that a ReadOnly handle refuses)")
+				if !g {
+					ob.Why = "a ReadOnly store can reach this write through an open handle on a path that is not an explicit mutation request: " + strings.Join(chain, " -> ") +
+						" (with the default opener the kernel refuses it and the operation fails - the store then does not serve its content; with an application-supplied File nothing refuses it)"
+					ob.Path = chain
+				}
+				return
 			} else if !cc.IsInvoke() && cc.StaticCallee() == nil {
 				if types.Identical(cc.Value.Type(), openFileT) && len(cc.Args) >= 2 {
 					construct = "call OpenFile value " + accessPath(cc.Value)
